@@ -47,7 +47,7 @@ theorem reference_contains_block (ff : FF) (rn : String) (mu mods : Option (List
     | none => simp [hb] at h
     | some b0 =>
       simp only [hb] at h
-      cases ha : applyMods ff (mods.getD []) b0 with
+      cases ha : applyMods ff (dedupReq (mods.getD [])) b0 with
       | error e => simp [ha] at h
       | ok b1 =>
         simp only [ha] at h
